@@ -105,6 +105,13 @@ func c08Bads() []CfgLit {
 		mut(func(l *CfgLit) { l.MaxAge = 86401 }),
 		mut(func(l *CfgLit) { l.Status = 199 }),
 		mut(func(l *CfgLit) { l.Status = 300 }),
+		mut(func(l *CfgLit) { l.Status = 456 }),
+		mut(func(l *CfgLit) { l.Status = 1000 }),
+		mut(func(l *CfgLit) { l.Status = -56 }),
+		mut(func(l *CfgLit) { l.Status = 1<<32 + 204 }),
+		mut(func(l *CfgLit) { l.MaxAge = 100000 }),
+		mut(func(l *CfgLit) { l.MaxAge = -86400 }),
+		mut(func(l *CfgLit) { l.MaxAge = 1<<32 + 5 }),
 		mut(func(l *CfgLit) { l.PNA, l.PNANoCORS = true, true }),
 		mut(func(l *CfgLit) {
 			l.Credentialed, l.PNA, l.PNANoCORS, l.Origins = false, true, true, []string{"https://d.example"}
